@@ -2171,34 +2171,66 @@ func (p *Prog) noteNormalised(tf *token.File, path string, newSrc []byte) {
 		p.lineMap = map[*token.File][]int{}
 	}
 	orig, _ := os.ReadFile(path)
-	ol := strings.Split(string(orig), "\n")
-	nl := strings.Split(string(newSrc), "\n")
-	pos := map[string][]int{}
-	for i, l := range ol {
-		t := strings.TrimSpace(l)
-		pos[t] = append(pos[t], i)
+	norm := func(src string) []string {
+		ls := strings.Split(src, "\n")
+		for i := range ls {
+			ls[i] = strings.TrimSpace(ls[i])
+		}
+		return ls
 	}
+	ol, nl := norm(string(orig)), norm(string(newSrc))
 	m := make([]int, len(nl)+2)
-	lastOrig := 0
-	for i, l := range nl {
-		t := strings.TrimSpace(l)
-		hit := -1
-		if len(t) > 3 {
-			for _, o := range pos[t] {
-				if o >= lastOrig {
-					hit = o
-					break
+	// common prefix and suffix
+	pre := 0
+	for pre < len(ol) && pre < len(nl) && ol[pre] == nl[pre] {
+		m[pre+1] = pre + 1
+		pre++
+	}
+	suf := 0
+	for suf < len(ol)-pre && suf < len(nl)-pre && ol[len(ol)-1-suf] == nl[len(nl)-1-suf] {
+		m[len(nl)-suf] = len(ol) - suf
+		suf++
+	}
+	a, b := ol[pre:len(ol)-suf], nl[pre:len(nl)-suf]
+	if len(a) > 0 && len(b) > 0 && len(a)*len(b) <= 24_000_000 {
+		// longest common subsequence of the lines in between (the printed file has no comments and the expanded bodies are
+		// new; everything else is unchanged text)
+		w := len(b) + 1
+		t := make([]uint16, (len(a)+1)*w)
+		for i := len(a) - 1; i >= 0; i-- {
+			for j := len(b) - 1; j >= 0; j-- {
+				switch {
+				case a[i] == b[j] && a[i] != "":
+					t[i*w+j] = t[(i+1)*w+j+1] + 1
+				case t[(i+1)*w+j] >= t[i*w+j+1]:
+					t[i*w+j] = t[(i+1)*w+j]
+				default:
+					t[i*w+j] = t[i*w+j+1]
 				}
 			}
-			// do not jump far ahead on a common line
-			if hit >= 0 && hit-lastOrig > 400 && len(pos[t]) > 1 {
-				hit = -1
+		}
+		i, j := 0, 0
+		for i < len(a) && j < len(b) {
+			switch {
+			case a[i] == b[j] && a[i] != "":
+				m[pre+j+1] = pre + i + 1
+				i++
+				j++
+			case t[(i+1)*w+j] >= t[i*w+j+1]:
+				i++
+			default:
+				j++
 			}
 		}
-		if hit >= 0 {
-			lastOrig = hit
+	}
+	// lines without a partner take the last matched line before them
+	last := 1
+	for k := 1; k <= len(nl); k++ {
+		if m[k] > 0 {
+			last = m[k]
+		} else {
+			m[k] = last
 		}
-		m[i+1] = lastOrig + 1
 	}
 	p.lineMap[tf] = m
 }
